@@ -401,6 +401,48 @@ func init() {
 		}
 		fmt.Fprintf(&e.out, "def lockedBeforeAccess : List String := %s\n", lst(locked))
 
+		// ==== request-shape tables (utils.go): which name combinations have a row, which validator / whether a mapper ====
+		tableOf := func(name string) []string {
+			var out []string
+			x, ok := e.valueSpec(d, name)
+			if !ok {
+				e.fail("%s not found", name)
+				return out
+			}
+			cl, ok := x.(*ast.CompositeLit)
+			if !ok {
+				e.fail("%s is not a composite literal", name)
+				return out
+			}
+			for _, el := range cl.Elts {
+				kv, ok := el.(*ast.KeyValueExpr)
+				if !ok {
+					continue
+				}
+				val := "func"
+				switch v := kv.Value.(type) {
+				case *ast.Ident:
+					val = v.Name
+				case *ast.SelectorExpr:
+					val = v.Sel.Name
+				}
+				out = append(out, strings.ReplaceAll(types.ExprString(kv.Key), " ", "")+"=>"+val)
+			}
+			return out
+		}
+		fmt.Fprintf(&e.out, "def validCombinations : List String := %s\n", lst(tableOf("ValidDeviceResourceCombinations")))
+		keysOf := func(rows []string) []string {
+			var out []string
+			for _, r := range rows {
+				out = append(out, strings.SplitN(r, "=>", 2)[0])
+			}
+			return out
+		}
+		fmt.Fprintf(&e.out, "def validCombinationKeys : List String := %s\n", lst(keysOf(tableOf("ValidDeviceResourceCombinations"))))
+		fmt.Fprintf(&e.out, "def combinationMapperKeys : List String := %s\n", lst(keysOf(tableOf("ResourceCombinationsMapper"))))
+		fmt.Fprintf(&e.out, "def resourceValidators : List String := %s\n", lst(tableOf("DeviceResourceValidators")))
+		fmt.Fprintf(&e.out, "def resourceFlags : List String := %s\n", lst(tableOf("DeviceResourceFlags")))
+
 		// ==== extension 2: event shapes, handler wiring, read-only steps ====
 		d2 := "pkg/util/reservation"
 		// clause types of the first type switch of a function ("default" for the default clause), in source order
